@@ -19,7 +19,7 @@ structure Inv (constraint : Bool) (bc : List Nat) (pos : Nat) (d : Dec) : Prop w
   ctxtIn : d.ctxt.isSome = true → d.inCtxt = true
   refs : nRef d.ctxs ≤ d.dataSize
   consumed : constraint = false → d.count + d.dataSize = pos
-  cnt : d.count ≤ pos ∧ d.dataSize ≤ pos
+  cnt : d.count ≤ pos ∧ d.dataSize ≤ pos ∧ d.count + (d.dataSize + 7) / 8 ≤ pos
   ilen : (d.ctxt = none → d.instrs.length = d.count) ∧ (∀ c, d.ctxt = some c → c.before.length + 1 + d.instrs.length = d.count)
 
 /-- every instruction emitted so far has operands below the limits -/
@@ -259,7 +259,7 @@ structure Done (constraint : Bool) (bc : List Nat) (d : Dec) : Prop where
   len : d.ctxs.length = 256
   refs : nRef d.ctxs ≤ d.dataSize
   consumed : constraint = false → d.count + d.dataSize = bc.length
-  cnt : d.count ≤ bc.length ∧ d.dataSize ≤ bc.length
+  cnt : d.count ≤ bc.length ∧ d.dataSize ≤ bc.length ∧ d.count + (d.dataSize + 7) / 8 ≤ bc.length
   ilen : d.instrs.length = d.count
 
 /-- **`decoder::load`**: for every bytecode, no read outside it, no write outside `_contexts`, and the loop ends -/
@@ -356,12 +356,13 @@ area (each context that gets a `TEMP_COPY` was flagged `referenced` by an instru
 code every byte is either an instruction or a parameter), as do the parameter bytes the data area -/
 theorem load_total (l : Limits) (constraint : Bool) (pt : Nat) (bc : List Nat) (hrl : constraint = false → l.ruleLength ≤ 254) :
     ∃ r, load l constraint pt bc = .ok r ∧ ∀ p, r = .ok (some p) →
-      p.instrs.length ≤ bc.length ∧ p.dataSize ≤ bc.length ∧ ∀ i ∈ p.instrs, OperandsOK l i.1 i.2 := by
+      p.instrs.length ≤ bc.length ∧ p.dataSize ≤ bc.length ∧ (∀ i ∈ p.instrs, OperandsOK l i.1 i.2) ∧
+      (constraint = true → p.instrs.length + (p.dataSize + 7) / 8 ≤ bc.length) := by
   unfold load
   simp only [bind, Except.bind, pure, Except.pure]
   have hi0 : Inv constraint bc 0 { outIndex := if constraint then 0 else l.preContext, outLength := if constraint then 1 else l.ruleLength, curEnd := bc.length } :=
     ⟨List.length_replicate, Nat.le_refl _, Nat.zero_le _, (fun _ => by show (-1 : Int) ≤ 0; omega), (fun c h => by cases h), (fun _ => rfl), (fun _ => rfl), (fun h => by cases h), (fun h => by cases h),
-     (by show nRef (List.replicate 256 {}) ≤ 0; rw [nRef_replicate]; exact Nat.le_refl 0), (fun _ => rfl), ⟨Nat.le_refl _, Nat.le_refl _⟩, ⟨(fun _ => rfl), (fun c h => by cases h)⟩⟩
+     (by show nRef (List.replicate 256 {}) ≤ 0; rw [nRef_replicate]; exact Nat.le_refl 0), (fun _ => rfl), ⟨Nat.le_refl _, Nat.le_refl _, (by show 0 + (0 + 7) / 8 ≤ 0; decide)⟩, ⟨(fun _ => rfl), (fun c h => by cases h)⟩⟩
   obtain ⟨r, hr, hd⟩ := loop_ok l constraint pt bc hrl (2 * bc.length + 2) 0 _ hi0 (by unfold mu; simp only [Option.isSome_none, Bool.false_eq_true, if_false]; omega)
     ⟨(fun i hi => by cases hi), (fun c hc => by cases hc)⟩
   rw [hr]
@@ -385,7 +386,12 @@ theorem load_total (l : Limits) (constraint : Bool) (pt : Nat) (bc : List Nat) (
       subst hp
       simp only []
       rw [foldl_insertAt_length, List.length_reverse, hdone.ilen]
-      refine ⟨?_, hdone.cnt.2, foldl_insertAt_ok l _ _ (fun i hi => hops i (List.mem_reverse.mp hi))⟩
+      refine ⟨?_, hdone.cnt.2.1, foldl_insertAt_ok l _ _ (fun i hi => hops i (List.mem_reverse.mp hi)), ?_⟩
+      rotate_left
+      · intro hc
+        subst hc
+        simp only [if_true, List.length_nil]
+        have := hdone.cnt.2.2; omega
       cases constraint with
       | true => simp only [if_true, List.length_nil]; have := hdone.cnt.1; omega
       | false =>
